@@ -294,6 +294,14 @@ func init() {
 					sc := scheds[k%len(scheds)]
 					emit(Case{Line: fmt.Sprintf("rd r %d %s %s", k, sc, sp), Kind: "reset"})
 					emit(Case{Line: fmt.Sprintf("rd h %d %s %s", k, sc, sp), Kind: "hang"})
+					if k > 17 && (isBound[k] || k%7 == 2) {
+						// the consumer reads with NextPackageUntil and its callback fails on the first package: the rest
+						// of the response is consumed by that call — which must end when the transport does
+						emit(Case{Line: fmt.Sprintf("rdu r %d %s %s", k, sc, sp), Kind: "callback-failed-then-transport-ends"})
+						if isBound[k] {
+							emit(Case{Line: fmt.Sprintf("rdu e %d %s %s", k, sc, sp), Kind: "callback-failed-then-transport-ends"})
+						}
+					}
 					if isBound[k] || tier == "thorough" || k%11 == 3 {
 						emit(Case{Line: fmt.Sprintf("rd e %d %s %s", k, sc, sp), Kind: "eof"})
 						if k > 0 {
@@ -378,6 +386,12 @@ func init() {
 			}
 			return ""
 		}
+		if strings.HasPrefix(line, "rdu ") {
+			if out != "until=err" {
+				return "a consumer whose callback failed gets an error back when the transport ends while the rest of the response is consumed — no later than the read timeout, its context live"
+			}
+			return ""
+		}
 		want := rdExpect(line)
 		if out == want {
 			return ""
@@ -409,8 +423,12 @@ func init() {
 				if strings.HasPrefix(line, "rx ") {
 					return rxImpl(line)
 				}
+				if strings.HasPrefix(line, "rdu ") {
+					return rduImpl(line)
+				}
 				return rdImpl(line)
 			},
+			NoModel: func(line string) bool { return strings.HasPrefix(line, "rdu ") },
 			FindingKey: func(line, out, clause string) string { return clause },
 			Nontrivial: func(line, out string) bool {
 				return strings.Contains(line, ",") || strings.HasPrefix(line, "wf ") || strings.HasPrefix(line, "rx ")
@@ -580,5 +598,65 @@ func wfImpl(line string) (out string) {
 func init() {
 	if p := registry["C14"]; p != nil {
 		p.Rule += " rd E: the transport reports its end together with the last bytes (io.Reader allows n > 0 with io.EOF); wf … full: the failing write reports the full count with its error; wf … once: only that write fails, later ones would succeed."
+	}
+}
+
+// rduImpl: `rdu <fin> <k> <sched> <pkts>` (oracle only): as `rd`, but the consumer reads with NextPackageUntil,
+// its callback fails on the first package it is shown, and its context stays live. Answer: `until=err`
+// (the callback's error or the transport's), `until=ok`, `until=blocked` after 3 s.
+func rduImpl(line string) string {
+	f := strings.Fields(line)
+	if len(f) != 5 {
+		return "bad-op"
+	}
+	k, err := strconv.Atoi(f[2])
+	if err != nil {
+		return "bad-op"
+	}
+	stream, _ := rdStream(f[4])
+	if k >= 0 && k < len(stream) {
+		stream = stream[:k]
+	}
+	var sched []int
+	if f[3] != "-" {
+		for _, s := range strings.Split(f[3], ".") {
+			n, _ := strconv.Atoi(s)
+			sched = append(sched, n)
+		}
+	}
+	mc := newMemConn()
+	mc.setSched(sched)
+	conn, _ := tds.VerifNewConn(context.Background(), mc, testInfo(), false)
+	ch := conn.VerifNewChannel(0)
+	mc.feed(stream)
+	if f[1] == "e" {
+		mc.end()
+	} else {
+		mc.fail(errors.New("connection reset by peer"))
+	}
+	go conn.ReadFrom()
+	defer mc.Close()
+	defer conn.VerifCancel()
+	res := make(chan string, 1)
+	go func() {
+		defer func() {
+			if r := recover(); r != nil {
+				res <- "until=panic"
+			}
+		}()
+		_, err := ch.NextPackageUntil(context.Background(), true, func(tds.Package) (bool, error) {
+			return false, errors.New("callback failed")
+		})
+		if err != nil {
+			res <- "until=err"
+		} else {
+			res <- "until=ok"
+		}
+	}()
+	select {
+	case r := <-res:
+		return r
+	case <-time.After(3 * time.Second):
+		return "until=blocked"
 	}
 }
